@@ -57,8 +57,8 @@ func c18Transcripts(c *kc.Ctx) []kc.Case {
 			for _, g := range insts {
 				got, _ := runProg(g, p, true, false)
 				line := "nomodel " + m + " " + p.String()
-				if g.Model != "" && g.Model != "qr512" {
-					line = "grp " + g.Model + " " + p.String()
+				if g.Grp != "" {
+					line = "grp " + g.Grp + " " + p.String()
 				}
 				cases = append(cases, kc.Case{Impl: g.Name + "/" + groups.BuildConfig, Kind: "program:" + m, Line: line, Got: got, Key: p.String()})
 			}
